@@ -394,14 +394,18 @@ def ob_avg_stats(ctx, res):
     if nb is None:
         res.fail("avgStats/len", lp, "per-value length must be val.end - val.start (values are already clipped to the region)")
         return
+    from ..astq import tnorm_keeping
     names = {"bases": None, "sum": None, "min": None, "max": None}
     for k, (op, rhs, node) in acc.items():
+        rhs = tnorm_keeping(fn, rhs, (nb, k))      # hoisted temporaries (`let value = f64::from(val.value)`) inlined
         if op == "+=" and S.factors(rhs) == [nb]:
             names["bases"] = k
         elif op == "+=" and sorted(S.factors(rhs)) == sorted([nb, v + ".value"]):
             names["sum"] = k
-        elif op == "=" and strip(rhs).k == "mcall" and strip(rhs)["method"] in ("min", "max") and up(strip(strip(rhs)["recv"])) == k and up(strip_cast(strip(rhs)["args"][0])) == v + ".value":
-            names[strip(rhs)["method"]] = k
+        elif op == "=" and strip(rhs).k == "mcall" and strip(rhs)["method"] in ("min", "max") and len(strip(rhs)["args"]) == 1:
+            ops = [up(strip_cast(strip(rhs)["recv"])), up(strip_cast(strip(rhs)["args"][0]))]
+            if sorted(ops) == sorted([k, v + ".value"]):
+                names[strip(rhs)["method"]] = k
     if None in names.values() or len(acc) != 4:
         res.fail("avgStats/form", lp, "accumulation must be bases += n; sum += n*value; min = min.min(value); max = max.max(value); recognised %s of %s" % (names, list(acc)))
         return
